@@ -183,6 +183,11 @@ pub fn generate(seed: u64, class: &str) -> Scenario {
     // "longrun": several thousand cheap searches with a nested call, from four threads:
     // anything periodic (every 4096th call ...) gets its turn.
     let longrun = class == "longrun";
+    // "bigproj": two threads projecting, filtering and flattening an array of a few thousand
+    // DISTINCT elements and looking at positions spread over the whole result: work that a
+    // library might split into chunks or hand to helper threads of its own (Miri is told the
+    // machine has 8 CPUs) must still come back in order.
+    let bigproj = class == "bigproj";
     let mut r = Rng::new(seed);
     let mut base = small_doc(&mut r);
     if class != "general" && class != "shared" && class != "crowd" && r.chance(1, 2) {
@@ -200,7 +205,7 @@ pub fn generate(seed: u64, class: &str) -> Scenario {
         docs.push(base.mutated(&mut r).to_json());
     }
     let npre = 1 + r.below(2);
-    let touch_default_first = if race || late { false } else if pool || deep || hot || shared || crowd || bigsort || manytexts || longrun { true } else { r.chance(1, 2) };
+    let touch_default_first = if race || late { false } else if pool || deep || hot || shared || crowd || bigsort || manytexts || longrun || bigproj { true } else { r.chance(1, 2) };
     #[allow(unused_assignments)]
     let mut pre = vec![];
     for _ in 0..npre {
@@ -257,12 +262,18 @@ pub fn generate(seed: u64, class: &str) -> Scenario {
         pre = vec![(true, "map(&abs(@), a)".to_string())];
         docs = vec!["{\"a\": [-1]}".to_string()];
     }
+    if bigproj {
+        let n = *r.pick(&[2048usize, 2100, 2304]);
+        let ys: Vec<J> = (0..n).map(|i| J::Int(i as i64 * 3 - 17)).collect();
+        docs = vec![J::Obj(vec![("ys".into(), J::Arr(ys))]).to_json()];
+        pre = vec![(true, "ys[*].abs(@) | [::263]".to_string())];
+    }
     if bigsort {
         let ys: Vec<J> = (0..4600).map(|i| J::Int(((i * 7919) % 4001) as i64)).collect();
         let zs: Vec<J> = (0..4300).map(|i| J::Int(((i * 104729) % 3001) as i64 + 5000)).collect();
         docs = vec![J::Obj(vec![("ys".into(), J::Arr(ys))]).to_json(), J::Obj(vec![("ys".into(), J::Arr(zs))]).to_json()];
     }
-    let nthreads = if pool { 3 + r.below(2) } else if deep { 5 } else if hot || shared { 4 } else if crowd { 20 } else if bigsort { 3 } else if manytexts { 2 } else if longrun { 4 } else { 2 + r.below(3) };
+    let nthreads = if pool { 3 + r.below(2) } else if deep { 5 } else if hot || shared { 4 } else if crowd { 20 } else if bigsort { 3 } else if bigproj { 2 } else if manytexts { 2 } else if longrun { 4 } else { 2 + r.below(3) };
     let mut pool_texts: Vec<String> = vec!["a".to_string(), "s".to_string(), String::new()];
     if !pool {
         pool_texts = (0..3).map(|_| gen_text(&mut r, &base, false)).collect();
@@ -299,6 +310,11 @@ pub fn generate(seed: u64, class: &str) -> Scenario {
         if bigsort {
             ops.push(Op::CompileSearch { text: "sort(ys)[:3]".to_string(), d: t % 2 });
             ops.push(Op::CompileSearch { text: "sort(ys)[-1]".to_string(), d: (t + 1) % 2 });
+            ops.push(Op::CompileSearch { text: "ys[*] | [::517]".to_string(), d: t % 2 });
+        }
+        if bigproj {
+            let texts = ["ys[*] | [::263]", "ys[?@ > `40`] | [::199]", "[ys, ys][] | [::401]", "ys[*].to_string(@) | [1023:1027]", "map(&@, ys)[::257]"];
+            ops.push(Op::CompileSearch { text: texts[(t + r.below(5)) % 5].to_string(), d: 0 });
         }
         if manytexts {
             if t == 0 {
@@ -364,7 +380,7 @@ pub fn generate(seed: u64, class: &str) -> Scenario {
                 ops.push(Op::CompileSearch { text, d });
             }
         }
-        if !(race || late || pool || deep || hot || shared || crowd || bigsort || manytexts || longrun) {
+        if !(race || late || pool || deep || hot || shared || crowd || bigsort || manytexts || longrun || bigproj) {
             // general class: a sliding window over KINDS, shifted by one per thread, so that
             // neighbouring threads evaluate the same kinds (compiled afresh or pre-compiled)
             let start = r.below(KINDS.len());
@@ -373,7 +389,7 @@ pub fn generate(seed: u64, class: &str) -> Scenario {
                 ops.push(Op::CompileSearch { text: KINDS[(start + t + k) % KINDS.len()].to_string(), d });
             }
         }
-        for _ in ops.len()..(if deep || hot || shared || crowd || bigsort || manytexts || longrun { 0 } else { nops.max(ops.len() + 1) }) {
+        for _ in ops.len()..(if deep || hot || shared || crowd || bigsort || manytexts || longrun || bigproj { 0 } else { nops.max(ops.len() + 1) }) {
             let d = r.below(docs.len());
             let e = r.below(pre.len());
             ops.push(match r.below(10) {
